@@ -51,12 +51,7 @@ func (m *Method) InnerCall(s *Scope, args List, depth int) (result Object) {
 			c.Before.Call(s, args, depth)
 		}
 	}
-	for _, c := range m.Combinations {
-		if c.Primary != nil {
-			result = c.Primary.Call(s, args, depth)
-			break
-		}
-	}
+	result = m.primaryCall(s, args, depth, 0)
 	for i := len(m.Combinations) - 1; 0 <= i; i-- {
 		c := m.Combinations[i]
 		if c.After != nil {
@@ -64,6 +59,23 @@ func (m *Method) InnerCall(s *Scope, args List, depth int) (result Object) {
 		}
 	}
 	return
+}
+
+// primaryCall calls the first primary method at or after the start
+// combination. Its location is bound so that call-next-method continues
+// with the next primary.
+func (m *Method) primaryCall(s *Scope, args List, depth, start int) Object {
+	for i := start; i < len(m.Combinations); i++ {
+		if primary := m.Combinations[i].Primary; primary != nil {
+			ps := s.NewScope()
+			// Not Let() which checks for a constant and so takes the
+			// package lock, a generic function can be called with
+			// that lock held.
+			ps.UnsafeLet("~whopper-location~", &WhopLoc{Method: m, Current: i, Primary: true})
+			return primary.Call(ps, args, depth)
+		}
+	}
+	return nil
 }
 
 func (m *Method) BoundCall(s *Scope, depth int) Object {
